@@ -94,6 +94,16 @@ def scenario(B, G, kind, n, h, a=None):
                 rij = rho[i][j] if rho is not None else psi[i] * O.conj(psi[j])
                 tr = tr + rij * e
         G.eq("%s.unbiased" % tag, lhs, O.re(tr))
+        # entry k of the result belongs to row k of the batch: an unsorted batch with repeats gives the same value per state
+        order = list(reversed(range(D))) + [0, D - 1, D // 2]
+        if D > 2:
+            order[0], order[1] = order[1], order[0]
+        shuffled = C.rows_tensor(B, [rows[i] for i in order])
+        vs = B.scalars(ob.apply(st, shuffled))
+        G.fact("%s.unsorted_batch_shape" % tag, tuple(vs.shape) == (len(order),), vs.shape)
+        if tuple(vs.shape) == (len(order),):
+            for k, i in enumerate(order):
+                G.eq("%s.value_follows_its_row[%d]" % (tag, k), vs[k], vals[i])
         if name != "ZZ":
             oa = cls(absolute=True)
             va = B.scalars(oa.apply(st, space.clone()))
